@@ -41,6 +41,32 @@ CLAIMED['C07'] = dict(
          'stub exposing named groups. ' + NOTE_COMMON,
     design='§5/C07')
 
+SX = ('symx (lib/symx.py): the real Python code is executed natively on z3-backed int/bool/date proxies; every branch on a symbolic value is '
+      'decided by z3 and all feasible paths are explored by deterministic re-execution. ')
+CLAIMED['C06'] = dict(
+    technique='bounded symbolic execution (symx + z3) of the real date parser and resolution builder with the regex match stubbed by symbolic-digit groups',
+    text=SX + 'BaseDateParser.parse -> match_to_date -> generate_dates -> formatters -> BaseMergedParser resolution builder run on a symbolic 4-digit '
+         'year 1900..2099, symbolic day 1..31, every month, and a symbolic reference datetime; asserts one date value equal to the TIMEX YYYY-MM-DD, '
+         'independent of the reference, and "not resolved" for non-existent days.',
+    note='The regex layer (which layouts DateExtractor1..A accept, which match wins) is outside: one date pattern is made to match with year/month/day '
+         'groups. Month/day word tables are replaced by one-entry tables and audited concretely against the calendar (O6.5, an audit, not a solver verdict). ' + NOTE_COMMON,
+    design='§5/C06')
+CLAIMED['C08'] = dict(
+    technique='API-level symbolic execution (symx + z3): concrete query text through the real extractors/parsers, symbolic reference datetime and symbolic N',
+    text=SX + 'The public model code path (extract + parse, mirrored without its blanket except) runs on each relative expression (today, tomorrow, N days ago, '
+         'in N weeks, next/this/last <weekday>, this/next/last week|month|year, now) with a symbolic reference; a discharged slice holds for every '
+         'reference datetime 1950-01-01..2090-12-31 at every minute. N is symbolic (1..5000) at unit level.',
+    note='Calendar classes are modelled (lib/symdate.py, validated against datetime every run); datedelta is an environment stub and month/year shifts from '
+         'the 29th..31st are reported ENV-DEPENDENT where its two plausible policies disagree. English only. ' + NOTE_COMMON,
+    design='§5/C08')
+CLAIMED['C09'] = dict(
+    technique='bounded symbolic execution (symx + z3) of the real date parser for year-less dates and bare weekdays, symbolic reference datetime',
+    text=SX + 'match_to_date/generate_dates (month+day without year, incl. 29 Feb) and parse_implicit_date (bare weekday) plus the resolution builder run '
+         'for every day of every month / every weekday and every reference 1950..2090 with symbolic time of day; asserts two candidates in past/future order, '
+         'nearest occurrences around the reference date, open TIMEX.',
+    note='Regex match stubbed. Known finding KF-C09-TOD (reference with a time of day on the very day named) is excluded as a region and searched separately. ' + NOTE_COMMON,
+    design='§5/C09')
+
 NOT_APPLICABLE = {
     'C18': 'ground equality of ~50 concrete generated files against concrete YAML: no quantified variable for a solver to range over; '
            'deciding it is executing the generator (whose dependency ruamel.yaml is absent from every usable interpreter)',
